@@ -143,6 +143,23 @@ pub fn check_inv(inv : &Inv, runner : &Runner, is_last : bool, mut stats : Optio
         }
     }
 
+    // (d') "builds of other rules are unaffected" includes what is remembered about them: a rule that
+    //      has nothing to do with the undeclared input and was built from identical sources must
+    //      not have to run again (the must-not-run obligation of C02, restricted to such rules)
+    {
+        let tainted : BTreeSet<usize> = hidden.union(&downstream_of(&inv.rules, &hidden)).cloned().collect();
+        let (v2, info) = super::super::hist::oracle_c02(inv, runner);
+        for v in v2
+        {
+            if !v.sig.starts_with("C02:unnecessary-run") { continue; }
+            let about_untainted = info.obliged_rules.iter().any(|r| !tainted.contains(r) && v.detail.contains(&format!("rule {} (", r)));
+            if about_untainted
+            {
+                out.push(Violation{ prop : "C17", sig : "C17:unrelated-rule-forgotten".to_string(), detail : v.detail });
+            }
+        }
+    }
+
     // (c) after the undeclared input is back to its original value the original record must
     //     still be in force: the final build succeeds with the original outputs
     if is_last
@@ -283,6 +300,21 @@ pub fn run_one(cfg : &Config, seed : u64, k : u64, stats : &mut Stats) -> Vec<Fo
 
     case.ops.push(Op::Build{ goal : None, sched : SchedSpec::random(&mut rng) });
     case.ops.push(Op::Write{ path : h.clone(), content : new });
+    let mut unrelated_edit : Option<(String, Vec<u8>)> = None;
+    if rng.chance(1, 2)
+    {
+        // an unrelated rule gets new work in the same build as the contradiction
+        let leaves = gen.leaf_names();
+        if leaves.len() > 0
+        {
+            let l = rng.pick(&leaves).clone();
+            let old_c = files.get(&l).cloned().unwrap_or(vec![]);
+            let mut c = old_c.clone();
+            c.extend_from_slice(b"+");
+            case.ops.push(Op::Write{ path : l.clone(), content : c });
+            unrelated_edit = Some((l, old_c));
+        }
+    }
     force_ops(&mut rng, &rules[victim], &original, &mut case.ops);
     case.ops.push(Op::Build{ goal : None, sched : SchedSpec::random(&mut rng) });
     if rng.chance(1, 3)
@@ -292,6 +324,7 @@ pub fn run_one(cfg : &Config, seed : u64, k : u64, stats : &mut Stats) -> Vec<Fo
         case.ops.push(Op::Build{ goal : None, sched : SchedSpec::random(&mut rng) });
     }
     case.ops.push(Op::Write{ path : h.clone(), content : old });
+    if let Some((l, c)) = unrelated_edit { case.ops.push(Op::Write{ path : l, content : c }); }
     // force every rule that reads an undeclared input, so that the final build has to reproduce the originals
     for r in hidden.iter()
     {
